@@ -1,0 +1,64 @@
+//go:build verif
+
+package errors
+
+// Contracts for the deductive verifier in /verif (gocv). Comment-only file
+// (plus lemma harness functions), compiled only under the `verif` build tag.
+
+// the general error classes
+//@ pred isClass(e error) = e == ErrExist || e == ErrNotExist || e == ErrClosed || e == ErrInvalid || e == ErrNotAuthorized || e == ErrDataLoss || e == ErrCommunication || e == ErrInternal || e == ErrConflict || e == ErrExhausted || e == ErrUnimplemented || e == ErrCanceled
+// the class a gRPC code maps back to (FromGRPCError)
+//@ spec back(c codes.Code) error = ite(has(grpcToErrors, c), grpcToErrors[c], ErrInternal)
+// consistency of the two tables: what the package initialiser must establish
+//@ pred tablesOK() = grpcToErrors != nil && errorsToCode != nil && has(grpcToErrors, codes.OK) && grpcToErrors[codes.OK] == nil &&
+//@      forall(c, codes.Code, has(grpcToErrors, c) && c != codes.OK ==> isClass(grpcToErrors[c])) &&
+//@      forall(e, error, has(errorsToCode, e) ==> isClass(e) && errorsToCode[e] != codes.OK && errorsToCode[e] != codes.Unknown && back(errorsToCode[e]) == e)
+//@ pred classesOK() = ErrExist != nil && ErrNotExist != nil && ErrClosed != nil && ErrInvalid != nil && ErrNotAuthorized != nil && ErrDataLoss != nil && ErrCommunication != nil && ErrInternal != nil && ErrConflict != nil && ErrExhausted != nil && ErrUnimplemented != nil && ErrCanceled != nil
+
+//@ func init()
+//@   props C19
+//@   noframe
+//@   ensures tablesOK() && classesOK()
+
+//@ func FromGRPCError(err error) error
+//@   props C19
+//@   requires tablesOK() && classesOK()
+//@   ensures r0 == back(statusCode(err))
+// every status code maps back to one class; nil exactly for OK
+//@   ensures err != nil ==> r0 != nil && isClass(r0)
+//@   ensures err == nil ==> r0 == nil
+
+//@ func Is(err error, target error) bool
+//@   props C19
+//@   requires tablesOK() && classesOK()
+//@   ensures r0 == (errIs(err, target) || errIs(back(statusCode(err)), target))
+
+//@ func GRPCStatusCode(err error) codes.Code
+//@   props C19
+//@   requires tablesOK() && classesOK()
+//@   ensures statusCode(err) != codes.Unknown ==> r0 == statusCode(err)
+//@   ensures statusCode(err) == codes.Unknown && has(errorsToCode, err) ==> r0 == errorsToCode[err]
+//@   ensures statusCode(err) == codes.Unknown && !has(errorsToCode, err) ==> (r0 == codes.Internal && forall(e, error, has(errorsToCode, e) ==> !errIs(err, e))) || exists(e, error, has(errorsToCode, e) && errIs(err, e) && r0 == errorsToCode[e])
+//@   ensures r0 != codes.OK || err == nil
+//@   loop 1
+//@     invariant tablesOK() && classesOK() && forall(e, error, rangeVisited(e) ==> has(errorsToCode, e) && !errIs(err, e))
+
+//@ func GRPCWrap(err error) error
+//@   props C19
+//@   requires tablesOK() && classesOK()
+//@   ensures statusCode(err) != codes.Unknown ==> r0 == err
+//@   ensures statusCode(err) == codes.Unknown ==> fresh(r0) && statusCode(r0) != codes.Unknown && statusCode(r0) != codes.OK && forall(t, error, errIs(r0, t) == (t == r0))
+//@   ensures statusCode(err) == codes.Unknown && has(errorsToCode, err) ==> statusCode(r0) == errorsToCode[err]
+//@   ensures statusCode(err) == codes.Unknown && !has(errorsToCode, err) ==> (statusCode(r0) == codes.Internal && forall(e, error, has(errorsToCode, e) ==> !errIs(err, e))) || exists(e, error, has(errorsToCode, e) && errIs(err, e) && statusCode(r0) == errorsToCode[e])
+
+// ---- the property, as a lemma over the contracts above ----
+// err is-a exactly the class cls (which has a gRPC code), through any wrapping; it is not itself a status error
+//@ lemma func lemmaWrapKeepsClass(err error, cls error, other error) (bool, bool, error, error)
+//@   props C19
+//@   requires tablesOK() && classesOK() && err != nil && isClass(cls) && has(errorsToCode, cls) && isClass(other) && other != cls
+//@   requires errIs(err, cls) && forall(d, error, isClass(d) && d != cls ==> !errIs(err, d)) && statusCode(err) == codes.Unknown
+//@   ensures r0 && !r1 && r2 == r3
+func lemmaWrapKeepsClass(err error, cls error, other error) (bool, bool, error, error) {
+	w := GRPCWrap(err)
+	return Is(w, cls), Is(w, other), w, GRPCWrap(w)
+}
